@@ -17,8 +17,10 @@ type (
 		op   string
 		l, r expr
 	}
-	eNot    struct{ e expr }
-	eIsNull struct {
+	eNot struct{ e expr }
+	// eDefault is the keyword DEFAULT in a VALUES list: the column gets its default
+	eDefault struct{}
+	eIsNull  struct {
 		e   expr
 		not bool
 	}
@@ -380,11 +382,15 @@ func (p *parser) insertStmt() (any, *Error) {
 		return nil, errf("invalid", "syntax error at or near \")\": an empty VALUES list is not valid SQL")
 	}
 	for {
-		e, err := p.expr()
-		if err != nil {
-			return nil, err
+		if p.acceptKw("default") {
+			s.values = append(s.values, eDefault{})
+		} else {
+			e, err := p.expr()
+			if err != nil {
+				return nil, err
+			}
+			s.values = append(s.values, e)
 		}
-		s.values = append(s.values, e)
 		if !p.acceptSym(",") {
 			break
 		}
@@ -929,6 +935,24 @@ func (p *parser) cmpExpr() (expr, *Error) {
 				l = eBin{"=", l, eLit{!not}}
 			case p.acceptKw("false"):
 				l = eBin{"=", l, eLit{not}}
+			case p.isKw("distinct"):
+				// a IS [NOT] DISTINCT FROM b: null-safe comparison, never null itself
+				p.pos++
+				if err := p.expectKw("from"); err != nil {
+					return nil, err
+				}
+				r, err := p.addExpr()
+				if err != nil {
+					return nil, err
+				}
+				same := eBin{"or",
+					eBin{"and", eIsNull{l, false}, eIsNull{r, false}},
+					eBin{"and", eBin{"and", eIsNull{l, true}, eIsNull{r, true}}, eBin{"=", l, r}}}
+				if not {
+					l = same
+				} else {
+					l = eNot{same}
+				}
 			default:
 				return nil, p.errHere("expected NULL after IS")
 			}
